@@ -1155,7 +1155,28 @@ cmd_net(void)
             fputc(']', vt_out);
             first = 0;
         }
-    fprintf(vt_out, "},\"beam\":%d,\"pbeam\":%d,\"wbeam\":%d}\n", (int)fs->beam_orig, (int)fs->pbeam_orig, (int)fs->wbeam_orig);
+    /* the dictionary's other pronunciations of every base word the network names - found by scanning the dictionary,
+     * not by the chain the search follows: [word, [alternate as a word of the network, or 0 when it has none]] */
+    fprintf(vt_out, "},\"usealt\":%s,\"alts\":[", config_bool(d->config, "fsgusealtpron") ? "true" : "false");
+    first = 1;
+    if (dict_size(d->dict) <= 20000)
+        for (w = 0; w < fsg_model_n_word(fsg); ++w) {
+            int32 wid = dict_wordid(d->dict, fsg_model_word_str(fsg, w)), v;
+            int na = 0;
+            if (wid == BAD_S3WID || dict_basewid(d->dict, wid) != wid || fsg_model_is_filler(fsg, w))
+                continue;
+            for (v = 0; v < dict_size(d->dict); ++v)
+                if (v != wid && dict_basewid(d->dict, v) == wid) {
+                    int a = fsg_model_word_id(fsg, dict_wordstr(d->dict, v));
+                    if (na++ == 0)
+                        fprintf(vt_out, "%s[%d,[", first ? "" : ",", w + 1);
+                    fprintf(vt_out, "%s%d", na > 1 ? "," : "", a < 0 ? 0 : a + 1);
+                    first = 0;
+                }
+            if (na)
+                fprintf(vt_out, "]]");
+        }
+    fprintf(vt_out, "],\"beam\":%d,\"pbeam\":%d,\"wbeam\":%d}\n", (int)fs->beam_orig, (int)fs->pbeam_orig, (int)fs->wbeam_orig);
     free(ssused);
     free(tmused);
 }
@@ -1697,7 +1718,20 @@ main(int argc, char *argv[])
                 a = au->n;
             if (b < 0 || a + b > au->n)
                 b = au->n - a;
-            if (!strcmp(enc, "f32"))
+            if (d && d->fe && d->fe->swap) {
+                /* the configuration announces samples in the other byte order (input_endian): hand them over that way */
+                size_t w = !strcmp(enc, "f32") ? sizeof(float32) : sizeof(int16), i, j;
+                unsigned char *tmp = (unsigned char *)malloc(b * w + 1);
+                const unsigned char *src = !strcmp(enc, "f32") ? (const unsigned char *)(au->f32 + a) : (const unsigned char *)(au->i16 + a);
+                for (i = 0; i < (size_t)b; ++i)
+                    for (j = 0; j < w; ++j)
+                        tmp[i * w + j] = src[i * w + (w - 1 - j)];
+                if (!strcmp(enc, "f32"))
+                    r = decoder_process_float32(d, (float32 *)tmp, (size_t)b, (int)c, (int)e);
+                else
+                    r = decoder_process_int16(d, (int16 *)tmp, (size_t)b, (int)c, (int)e);
+                free(tmp);
+            } else if (!strcmp(enc, "f32"))
                 r = decoder_process_float32(d, au->f32 + a, (size_t)b, (int)c, (int)e);
             else
                 r = decoder_process_int16(d, au->i16 + a, (size_t)b, (int)c, (int)e);
